@@ -41,12 +41,14 @@ type world struct {
 	prop  string
 	clock *simenv.SimClock
 
-	root   virtual.PrepopulatedDirectory
-	pool   *nfs.OpenedFilesPool
-	prog40 nfsv4.Nfs4Program
-	prog41 nfsv4.Nfs4Program
-	alloc  *countingAllocator
-	names  []string
+	root      virtual.PrepopulatedDirectory
+	pool      *nfs.OpenedFilesPool
+	prog40    nfsv4.Nfs4Program
+	prog41    nfsv4.Nfs4Program
+	alloc     *countingAllocator
+	names     []string // names of pool-backed files (created, removed and created again by clients)
+	blobs     *blobs
+	blobNames []string // names of the blob files (never removed)
 
 	clients []*client
 	reqs    []*request
@@ -179,6 +181,7 @@ func newWorld(r *simrun.Run, prop string) *world {
 	defaultAttributesSetter := func(requested virtual.AttributesMask, attributes *virtual.Attributes) {}
 	w.alloc = &countingAllocator{
 		w:    w,
+		byFH: map[string]int{},
 		base: virtual.NewPoolBackedFileAllocator(&memPool{w: w}, quietLogger{}, defaultAttributesSetter, virtual.NoNamedAttributesFactory),
 	}
 	w.root = virtual.NewInMemoryPrepopulatedDirectory(
@@ -209,6 +212,14 @@ func newWorld(r *simrun.Run, prop string) *world {
 	// Files. Some exist from the start (created and closed again by the
 	// controller), the others are created by clients.
 	w.names = []string{"f0", "f1", "f2"}
+	// Blob files (read-only, resolvable file handles) are file#0... and
+	// sit in the root directory under the names b0...
+	var blobChildren map[path.Component]virtual.InitialChild
+	w.blobs, blobChildren = newBlobs(w, handleAllocator)
+	if err := w.root.CreateChildren(blobChildren, false); err != nil {
+		harness("cannot place blob files: %v", err)
+	}
+	nb := len(blobSpecs)
 	pre := 1 + t.Choice(3)
 	for i := 0; i < pre; i++ {
 		var attrs virtual.Attributes
@@ -216,8 +227,8 @@ func newWorld(r *simrun.Run, prop string) *world {
 		if s != virtual.StatusOK {
 			harness("cannot precreate file: %v", s)
 		}
-		if !bytes.Equal(attrs.GetFileHandle(), fhOfLeaf(i)) {
-			harness("file handle prediction failed: leaf %d has handle %x, predicted %x", i, attrs.GetFileHandle(), fhOfLeaf(i))
+		if !bytes.Equal(attrs.GetFileHandle(), w.fhOfLeaf(nb+i)) {
+			harness("file handle prediction failed: leaf %d has handle %x, predicted %x", nb+i, attrs.GetFileHandle(), w.fhOfLeaf(nb+i))
 		}
 		leaf.VirtualWrite(context.Background(), []byte(fmt.Sprintf("initial contents of %s", w.names[i])), 0)
 		leaf.VirtualClose(virtual.ShareMaskWrite)
@@ -625,7 +636,7 @@ func (w *world) finalExpiry() {
 	for i, l := range w.alloc.snapshot() {
 		for b := 0; b < 2; b++ {
 			if l.opens[b] != l.closes[b] {
-				w.violate("not-closed-after-expiry", fmt.Sprintf("after every lease expired, file#%d (handle %x) has been opened for %s %d times but closed %d times", i, fhOfLeaf(i), bitName[b], l.opens[b], l.closes[b]))
+				w.violate("not-closed-after-expiry", fmt.Sprintf("after every lease expired, file#%d (handle %x) has been opened for %s %d times but closed %d times", i, w.fhOfLeaf(i), bitName[b], l.opens[b], l.closes[b]))
 				return
 			}
 		}
